@@ -146,6 +146,8 @@ pub struct FnSpec {
     pub bounds_in_where: usize,
     pub params: Vec<Param>,
     pub has_gen: bool,
+    /// no written return type: only the trace shows that (and how) the fn ran
+    pub ret_unit: bool,
 }
 
 /// Parameter names whose alphabetical order differs from their declared order (a bug that sorts or hashes names must show).
@@ -247,7 +249,7 @@ impl FnSpec {
         }
         let g = if generics.is_empty() { String::new() } else { format!("<{}>", generics.join(", ")) };
         let w = if wheres.is_empty() { String::new() } else { format!(" where {}", wheres.join(", ")) };
-        format!("{}{}fn {}{g}({}) -> String{w}", if self.vis.is_empty() { String::new() } else { format!("{} ", self.vis) }, if self.is_async { "async " } else { "" }, self.name, params.join(", "))
+        format!("{}{}fn {}{g}({}){}{w}", if self.vis.is_empty() { String::new() } else { format!("{} ", self.vis) }, if self.is_async { "async " } else { "" }, self.name, params.join(", "), if self.ret_unit { "" } else { " -> String" })
     }
 
     pub fn body(&self) -> String {
@@ -280,7 +282,7 @@ impl FnSpec {
         s.push_str(&format!("    let __sum: u32 = {sum};\n"));
         let args = if parts.is_empty() { "String::new()".to_string() } else { format!("[{}].join(\",\")", parts.iter().map(|p| format!("{p}.as_str()")).collect::<Vec<_>>().join(", ")) };
         s.push_str(&format!("    let __r = format!(\"{}|{{}}|{{}}|{{}}\", __id, {args}, __sum);\n", self.tag));
-        s.push_str("    crate::rt::trace(__r.clone());\n    __r\n}");
+        s.push_str(if self.ret_unit { "    crate::rt::trace(__r.clone());\n}" } else { "    crate::rt::trace(__r.clone());\n    __r\n}" });
         s
     }
 
